@@ -114,10 +114,9 @@ pub fn check_state<const N: usize>(t: &Tree, model: &[u8; N]) {
     }
 }
 
-pub fn check_ask<const N: usize>(t: &mut Tree, model: &[u8; N]) {
-    let l: usize = kani::any();
-    let r: usize = kani::any();
-    kani::assume(l <= r && r < N);
+/// ask(l, r) with CONCRETE l, r from an arbitrary lazy state (the harnesses loop over every pair): the recursion of the
+/// library then has concrete control flow whatever it does with its pushes, so a broken variant terminates as well
+pub fn ask_at<const N: usize>(t: &mut Tree, model: &[u8; N], l: usize, r: usize) {
     let got = t.ask(l, r);
     assert!(got.len as usize == r - l + 1, "ask: length of the aggregate");
     let mut i = 0;
@@ -127,63 +126,90 @@ pub fn check_ask<const N: usize>(t: &mut Tree, model: &[u8; N]) {
         }
         i += 1;
     }
-    kani::cover!(l > 0 && r + 1 < N || N < 3, "interior range");
 }
 
-/// one symbolic operation on tree + model
-pub fn step<const N: usize>(t: &mut Tree, model: &mut [u8; N]) {
-    let op: u8 = kani::any();
-    let l: usize = kani::any();
-    let r: usize = kani::any();
-    kani::assume(op < 5 && l <= r && r < N);
-    if op == 0 {
-        let m = any_md();
-        t.modify(l, r, &m);
-        let mut i = 0;
-        while i < N {
-            if l <= i && i <= r {
+/// every range modify from an arbitrary state: invariant + abstraction afterwards (on the raw node array)
+fn all_modify<const N: usize, const L0: usize>() {
+    let mut l = L0;
+    while l <= L0 {
+        let mut r = l;
+        while r < N {
+            let mut model = [0u8; N];
+            let mut t = build::<N>(&mut model);
+            let m = any_md();
+            t.modify(l, r, &m);
+            let mut i = l;
+            while i <= r {
                 model[i] = m.apply1(model[i]);
+                i += 1;
             }
-            i += 1;
+            check_state::<N>(&t, &model);
+            core::mem::forget(t);
+            r += 1;
         }
-    } else if op == 1 {
+        l += 1;
+    }
+}
+
+/// every point assignment from an arbitrary state
+fn all_set<const N: usize>() {
+    let mut p = 0;
+    while p < N {
+        let mut model = [0u8; N];
+        let mut t = build::<N>(&mut model);
         let x: u8 = kani::any();
         kani::assume(x < 16);
-        t.set(l, Seq::one(x));
-        model[l] = x;
-    } else if op == 2 {
-        let got = t.ask(l, r);
-        assert!(got.len as usize == r - l + 1);
-        let mut i = 0;
-        while i < N {
-            if l + i <= r {
-                assert!(nib(got.v, i) == model[l + i], "ask (as a step): in-order merge");
-            }
-            i += 1;
-        }
-    } else if op == 3 {
-        // queries mutate the lazy state too: a search (result checked in C02)
-        let k: u8 = kani::any();
-        let _ = t.lower_bound(l, |s: &Seq| s.len >= k);
-    } else {
-        let k: u8 = kani::any();
-        let _ = t.lower_bound_rev(r, |s: &Seq| s.len >= k);
+        t.set(p, Seq::one(x));
+        model[p] = x;
+        check_state::<N>(&t, &model);
+        core::mem::forget(t);
+        p += 1;
     }
-    kani::cover!(N < 2 || (op == 0 && l < r), "range modify step");
-    kani::cover!(op == 1, "set step");
 }
 
-fn run<const N: usize, const K: usize>() {
-    let mut model = [0u8; N];
-    let mut t = build::<N>(&mut model);
-    let mut k = 0;
-    while k < K {
-        step::<N>(&mut t, &mut model);
-        k += 1;
+/// every range query from an arbitrary state: answer = model slice; the query leaves a consistent state (it pushes)
+fn all_ask<const N: usize, const L0: usize>() {
+    let mut l = L0;
+    while l <= L0 {
+        let mut r = l;
+        while r < N {
+            let mut model = [0u8; N];
+            let mut t = build::<N>(&mut model);
+            ask_at::<N>(&mut t, &model, l, r);
+            check_state::<N>(&t, &model);
+            core::mem::forget(t);
+            r += 1;
+        }
+        l += 1;
     }
-    check_state::<N>(&t, &model);
-    check_ask::<N>(&mut t, &model);
-    core::mem::forget(t);
+}
+
+/// two modifications in a row with partially overlapping ranges, then a query over everything
+fn two_ops<const N: usize>() {
+    let mut l = 0;
+    while l < N {
+        let mut model = [0u8; N];
+        let mut t = build::<N>(&mut model);
+        let m1 = any_md();
+        let m2 = any_md();
+        let r1 = if l + 1 < N { l + 1 } else { l };
+        t.modify(l, r1, &m1);
+        let mut i = l;
+        while i <= r1 {
+            model[i] = m1.apply1(model[i]);
+            i += 1;
+        }
+        t.modify(0, l, &m2);
+        let mut i = 0;
+        while i <= l {
+            model[i] = m2.apply1(model[i]);
+            i += 1;
+        }
+        check_state::<N>(&t, &model);
+        ask_at::<N>(&mut t, &model, 0, N - 1);
+        core::mem::forget(t);
+        l += 1;
+    }
 }
 
 /// the builder itself establishes the invariant (so `build` really yields states satisfying I and A)
@@ -198,30 +224,72 @@ fn builder_ok<const N: usize>() {
 }
 
 macro_rules! per_n {
-    ($n:expr, $run1:ident, $bld:ident) => {
+    ($n:expr, $st:ident, $two:ident, $bld:ident) => {
         #[kani::proof]
         #[kani::unwind(34)]
-        fn $run1() { run::<$n, 1>(); }
+        fn $st() { all_set::<$n>(); }
+        #[kani::proof]
+        #[kani::unwind(34)]
+        fn $two() { two_ops::<$n>(); }
         #[kani::proof]
         #[kani::unwind(34)]
         fn $bld() { builder_ok::<$n>(); }
     };
 }
-per_n!(1, c01_step_n1, c01_builder_n1);
-per_n!(2, c01_step_n2, c01_builder_n2);
-per_n!(3, c01_step_n3, c01_builder_n3);
-per_n!(4, c01_step_n4, c01_builder_n4);
-per_n!(5, c01_step_n5, c01_builder_n5);
-per_n!(6, c01_step_n6, c01_builder_n6);
-per_n!(7, c01_step_n7, c01_builder_n7);
-per_n!(8, c01_step_n8, c01_builder_n8);
-
-#[kani::proof]
-#[kani::unwind(34)]
-fn c01_step2_n3() { run::<3, 2>(); }
-#[kani::proof]
-#[kani::unwind(34)]
-fn c01_step2_n4() { run::<4, 2>(); }
+macro_rules! per_nl {
+    ($n:expr, $l:expr, $md:ident, $ask:ident) => {
+        #[kani::proof]
+        #[kani::unwind(34)]
+        fn $md() { all_modify::<$n, $l>(); }
+        #[kani::proof]
+        #[kani::unwind(34)]
+        fn $ask() { all_ask::<$n, $l>(); }
+    };
+}
+per_n!(1, c01_set_n1, c01_two_n1, c01_builder_n1);
+per_nl!(1, 0, c01_modify_n1_l0, c01_ask_n1_l0);
+per_n!(2, c01_set_n2, c01_two_n2, c01_builder_n2);
+per_nl!(2, 0, c01_modify_n2_l0, c01_ask_n2_l0);
+per_nl!(2, 1, c01_modify_n2_l1, c01_ask_n2_l1);
+per_n!(3, c01_set_n3, c01_two_n3, c01_builder_n3);
+per_nl!(3, 0, c01_modify_n3_l0, c01_ask_n3_l0);
+per_nl!(3, 1, c01_modify_n3_l1, c01_ask_n3_l1);
+per_nl!(3, 2, c01_modify_n3_l2, c01_ask_n3_l2);
+per_n!(4, c01_set_n4, c01_two_n4, c01_builder_n4);
+per_nl!(4, 0, c01_modify_n4_l0, c01_ask_n4_l0);
+per_nl!(4, 1, c01_modify_n4_l1, c01_ask_n4_l1);
+per_nl!(4, 2, c01_modify_n4_l2, c01_ask_n4_l2);
+per_nl!(4, 3, c01_modify_n4_l3, c01_ask_n4_l3);
+per_n!(5, c01_set_n5, c01_two_n5, c01_builder_n5);
+per_nl!(5, 0, c01_modify_n5_l0, c01_ask_n5_l0);
+per_nl!(5, 1, c01_modify_n5_l1, c01_ask_n5_l1);
+per_nl!(5, 2, c01_modify_n5_l2, c01_ask_n5_l2);
+per_nl!(5, 3, c01_modify_n5_l3, c01_ask_n5_l3);
+per_nl!(5, 4, c01_modify_n5_l4, c01_ask_n5_l4);
+per_n!(6, c01_set_n6, c01_two_n6, c01_builder_n6);
+per_nl!(6, 0, c01_modify_n6_l0, c01_ask_n6_l0);
+per_nl!(6, 1, c01_modify_n6_l1, c01_ask_n6_l1);
+per_nl!(6, 2, c01_modify_n6_l2, c01_ask_n6_l2);
+per_nl!(6, 3, c01_modify_n6_l3, c01_ask_n6_l3);
+per_nl!(6, 4, c01_modify_n6_l4, c01_ask_n6_l4);
+per_nl!(6, 5, c01_modify_n6_l5, c01_ask_n6_l5);
+per_n!(7, c01_set_n7, c01_two_n7, c01_builder_n7);
+per_nl!(7, 0, c01_modify_n7_l0, c01_ask_n7_l0);
+per_nl!(7, 1, c01_modify_n7_l1, c01_ask_n7_l1);
+per_nl!(7, 2, c01_modify_n7_l2, c01_ask_n7_l2);
+per_nl!(7, 3, c01_modify_n7_l3, c01_ask_n7_l3);
+per_nl!(7, 4, c01_modify_n7_l4, c01_ask_n7_l4);
+per_nl!(7, 5, c01_modify_n7_l5, c01_ask_n7_l5);
+per_nl!(7, 6, c01_modify_n7_l6, c01_ask_n7_l6);
+per_n!(8, c01_set_n8, c01_two_n8, c01_builder_n8);
+per_nl!(8, 0, c01_modify_n8_l0, c01_ask_n8_l0);
+per_nl!(8, 1, c01_modify_n8_l1, c01_ask_n8_l1);
+per_nl!(8, 2, c01_modify_n8_l2, c01_ask_n8_l2);
+per_nl!(8, 3, c01_modify_n8_l3, c01_ask_n8_l3);
+per_nl!(8, 4, c01_modify_n8_l4, c01_ask_n8_l4);
+per_nl!(8, 5, c01_modify_n8_l5, c01_ask_n8_l5);
+per_nl!(8, 6, c01_modify_n8_l6, c01_ask_n8_l6);
+per_nl!(8, 7, c01_modify_n8_l7, c01_ask_n8_l7);
 
 /// base cases: the three constructors establish the invariant
 fn ctor<const N: usize>() {
@@ -232,18 +300,26 @@ fn ctor<const N: usize>() {
         let x: u8 = kani::any();
         kani::assume(x < 16);
         model = [x; N];
-        Tree::new(N, Seq::one(x))
+        // a fill element that itself carries a pending modifier (e.g. one obtained by ask(i, i) from another tree)
+        let mut e = Seq::one(x);
+        e.md = any_md();
+        Tree::new(N, e)
     } else if which == 1 {
         model = any_letters::<N>();
-        let items: [Seq; N] = core::array::from_fn(|i| Seq::one(model[i]));
+        let mds: [Md; N] = core::array::from_fn(|_| any_md());
+        let items: [Seq; N] = core::array::from_fn(|i| { let mut e = Seq::one(model[i]); e.md = mds[i]; e });
         Tree::from_slice(&items)
     } else {
         model = any_letters::<N>();
-        let items: [Seq; N] = core::array::from_fn(|i| Seq::one(model[i]));
+        let mds: [Md; N] = core::array::from_fn(|_| any_md());
+        let items: [Seq; N] = core::array::from_fn(|i| { let mut e = Seq::one(model[i]); e.md = mds[i]; e });
         Tree::from_iter(items.into_iter())
     };
-    check_state::<N>(&t, &model);
-    check_ask::<N>(&mut t, &model);
+    // the pending modifier of a leaf element has no children to reach: the logical array is the letters as given
+    ask_at::<N>(&mut t, &model, 0, N - 1);
+    ask_at::<N>(&mut t, &model, N / 2, N - 1);
+    ask_at::<N>(&mut t, &model, 0, N / 2);
+    ask_at::<N>(&mut t, &model, N / 2, N / 2);
     kani::cover!(which == 0);
     kani::cover!(which == 2);
     core::mem::forget(t);
@@ -260,6 +336,22 @@ fn c01_ctor_n5() { ctor::<5>(); }
 #[kani::proof]
 #[kani::unwind(34)]
 fn c01_ctor_n8() { ctor::<8>(); }
+
+/// constructors from plain elements (no pending modifier) establish invariant + abstraction on the raw node array
+fn ctor_inv<const N: usize>() {
+    let which: bool = kani::any();
+    let model = any_letters::<N>();
+    let items: [Seq; N] = core::array::from_fn(|i| Seq::one(model[i]));
+    let t = if which { Tree::from_slice(&items) } else { Tree::from_iter(items.into_iter()) };
+    check_state::<N>(&t, &model);
+    core::mem::forget(t);
+}
+#[kani::proof]
+#[kani::unwind(34)]
+fn c01_ctorinv_n3() { ctor_inv::<3>(); }
+#[kani::proof]
+#[kani::unwind(34)]
+fn c01_ctorinv_n6() { ctor_inv::<6>(); }
 
 #[kani::proof]
 #[kani::unwind(34)]
